@@ -286,6 +286,38 @@ static void enumerate_op(int kind, op_t *o, int v, int n, int cfg) {
     }
 }
 
+/* elements far larger than a thread stack (16 MiB): scratch space of an operation must come from the heap, where its failure can be reported */
+static uint64_t hv_digest(qvector_t *v, size_t os) { uint64_t h = vf_hash(&v->num, sizeof v->num, VF_H0); for (size_t i = 0; i < v->num; i++) { unsigned char *e = (unsigned char *)v->data + i * os; h = vf_hash(e, 64, h); h = vf_hash(e + os - 64, 64, h); } return h; }
+static qvector_t *hv_build(size_t os, int n) { qvector_t *v = qvector(0, os, QVECTOR_RESIZE_EXACT); if (!v) return NULL; unsigned char *e = hm_alloc(os); for (int i = 0; i < n; i++) { memset(e, 'a' + i, os); e[os - 1] = (unsigned char)i; if (!v->addlast(v, e)) { hm_free(e); v->free(v); return NULL; } } hm_free(e); return v; }
+static void huge_elements(void) {
+    static const char *ON[] = {"reverse", "addfirst", "popat", "getat(newmem)", "toarray", "resize"};
+    size_t os = 16u << 20; unsigned char *ne = hm_alloc(os); memset(ne, 'Z', os);
+    for (int op = 0; op < 6; op++) for (int mode = 0; mode < 2; mode++) for (long k = 0; k <= 6; k++) {
+        long mark = vf_ledger_mark();
+        qvector_t *A = hv_build(os, 3), *B = hv_build(os, 3); if (!A || !B) { fprintf(stderr, "h_oom: cannot build the huge-element vectors\n"); exit(2); }
+        uint64_t d0 = hv_digest(A, os); bool okA = true, okB = true; void *pa = NULL, *pb = NULL; size_t ca = 0, cb = 0;
+        vf_log("qvector.%s on 3 elements of %zu bytes, allocation %ld failing (%s)", ON[op], os, k, mode ? "and all later" : "single");
+        for (int side = 0; side < 2; side++) { qvector_t *v = side ? A : B; bool *ok = side ? &okA : &okB; void **p = side ? &pa : &pb; size_t *cn = side ? &ca : &cb;
+            if (side) { vf_oom_k = k; vf_oom_all = mode; oom_begin(); }
+            errno = 0;
+            switch (op) { case 0: v->reverse(v); *ok = errno != ENOMEM; break; case 1: *ok = v->addfirst(v, ne); break; case 2: *p = v->popat(v, 1); *ok = *p != NULL; break;
+                          case 3: *p = v->getat(v, -1, true); *ok = *p != NULL; break; case 4: *p = v->toarray(v, cn); *ok = *p != NULL; break; default: *ok = v->resize(v, 5); }
+        }
+        long hits = oom_end();
+        uint64_t dA = hv_digest(A, os), dB = hv_digest(B, os);
+        vf_count("evaluations", 1); vf_count("huge_element_operations", 1); if (hits) vf_count("fault_positions_injected", 1);
+        if (!okB) viol("qvector", ON[op], "harness", "the fault-free reference run failed (errno %d)", errno);
+        else if (!okA) { if (!hits) viol("qvector", ON[op], "failed-without-fault", "the call on 16 MiB elements failed although no allocation failed"); else { vf_count("oom_reported_failure", 1); if (dA != d0) viol("qvector", ON[op], "changed-on-failure", "call on 16 MiB elements reported failure but the contents changed (k=%ld)", k); } }
+        else { if (dA != dB) viol("qvector", ON[op], "wrong-state-reported-as-success", "call on 16 MiB elements reported success but the contents differ from the fault-free twin (k=%ld)", k);
+               else if ((pa || pb) && (ca != cb || !pa || !pb || memcmp(pa, pb, op == 4 ? os * 3 : os))) viol("qvector", ON[op], "wrong-result-reported-as-success", "call on 16 MiB elements returned something else than the fault-free twin (k=%ld)", k); }
+        free(pa); free(pb); A->free(A); B->free(B);
+        if (vf_ledger_live_since(mark)) viol("qvector", ON[op], "leak", "%ld block(s) still allocated after the huge-element vectors were freed", vf_ledger_live_since(mark));
+        if (k > 0 && !hits) break;
+    }
+    hm_free(ne);
+    vf_sample("qvector with 3 elements of 16 MiB: reverse/addfirst/popat/getat(newmem)/toarray/resize fault-free and with each allocation failing, differential against a twin");
+}
+
 /* constructors: every allocation failing in turn, with and without the thread-safe flag */
 static void constructors(long caseno) {
     static const char *CN[] = {"qtreetbl()", "qhashtbl()", "qlisttbl()", "qlist()", "qqueue()", "qstack()", "qgrow()", "qvector()", "qhasharr()"};
@@ -350,6 +382,7 @@ int main(int argc, char **argv) {
     long caseno = 0;
     if (vf_mine(caseno)) { vf_case_begin(caseno, "constructors"); constructors(caseno); }
     caseno++;
+    if (vf_mine(9000)) { vf_case_begin(9000, "vector operations on elements larger than a thread stack"); huge_elements(); }
     for (int kind = 0; kind < NKINDS; kind++) for (op_t *o = OPTAB[kind]; o->name; o++, caseno++) {
         if (!vf_mine(caseno)) continue;
         vf_case_begin(caseno, "%s.%s", KNAME[kind], o->name);
